@@ -33,7 +33,11 @@ chk("C10", "chansim", "fault_enumeration",
     "Trusted: the reference check-digit arithmetic and L/G/R, parity and frozen Code 128 / Code 93 tables (structurally validated at start-up). A valid symbol that is simply not found is C03's matter and only counted.",
     "fault enumeration on a simulated 1-D bar/space medium (single substitution faults; reference check-digit model as oracle)", "DESIGN.md section 5, section 7 C10")
 
+chk("C17", "histsim", "exploration",
+    "Seeded histories over a population of luminance views (five Go image kinds, RGB ints, planar YUV with offsets and horizontal reversal): crop / invert / rotate chains up to 9 deep with in-range, beyond-view, negative-origin and outside-data rectangles; rows read into nil / short / exact / long / previously returned buffers, returned buffers scribbled on; both binarisers incl. cached matrices, reused row arrays, Crop and Rotate of bitmaps. After every step every live view is compared pixel-wise with a naive window-on-array model; bilevel images of all sizes 1..48 x 1..48 and 153..200 are enumerated for the binarisers (black == luminance 0, or NotFound).",
+    "Trusted: the naive window model, the rule for which crops are valid, and the bilevel rule derived from the property statement. Colour-to-luminance is modelled only where the result is unambiguous (opaque gray, transparent, RGB ints). No schedule or fault exists for these objects; this is the workload/oracle/replay half of the technique only.",
+    "seeded operation-history simulation vs naive reference model, ddmin replay", "DESIGN.md section 6, section 7 C17")
+
 PENDING.update({
  "C11": "claimed by the design (chansim) but its check is not built yet at this commit",
- "C17": "claimed by the design (histsim) but its check is not built yet at this commit",
 })
